@@ -6,6 +6,7 @@ instances carrying a z3 expression and a *kind*.  Mutable things (lists,
 bytearrays, BytesIO, dicts, class instances) are Loc references into the
 per-path heap.
 """
+import decimal
 import z3
 
 IntSeq = z3.SeqSort(z3.IntSort())
@@ -143,6 +144,8 @@ def lift(v, kind=None):
                 return SV(z3.If(v.e, z3.IntVal(1), z3.IntVal(0)), 'int')
             raise Unsupported("kind mismatch: have %s want %s" % (kind_name(v.kind), kind_name(kind)))
         return v
+    if isinstance(v, decimal.Decimal) and v == v.to_integral_value():
+        v = int(v)      # integral Decimal constants (MAX_MONEY) compare and add like ints
     if isinstance(v, bool):
         if kind == 'int':
             return SV(z3.IntVal(int(v)), 'int')
@@ -169,6 +172,8 @@ def lift(v, kind=None):
 def kind_of(v):
     if isinstance(v, SV):
         return v.kind
+    if isinstance(v, decimal.Decimal) and v == v.to_integral_value():
+        return 'int'
     if isinstance(v, bool):
         return 'bool'
     if isinstance(v, int):
